@@ -49,12 +49,12 @@ CHECKS = {
          "Construction = memory.New + cpu.New as gameboy.New performs them; undefined opcodes are never executed in-process (peek guard).",
          "DESIGN.md §4 C11"),
  "C12": ("reference-model monitor: bounded-exhaustive operation sequences (tick / DIV / TIMA / TMA / TAC writes) from edge-structured start states, long random schedules, timer ROMs",
-         "Every operation sequence up to length 4 (quick) / 6 (thorough) over a 13-operation alphabet is run on the real Timer from 960 start states (every TAC, counter 1-4 cycles before each edge of the selected bit and around the FFFC/0000 wrap, TIMA near overflow); DIV, TIMA, TMA, TAC and the interrupt result are compared with a cycle-sampled reference after every operation; plus 4e6 random operations and the mooneye timer ROMs.",
+         "Every operation sequence up to length 4 (quick) / 6 (thorough) over a 13-operation alphabet is run on the real Timer from 960 start states (every TAC, counter 1-4 cycles before each edge of the selected bit and around the FFFC/0000 wrap, TIMA near overflow); DIV, TIMA, TMA, TAC and the interrupt result are compared with a cycle-sampled reference after every operation; plus 4e6 random operations, the same random schedules through FF04-FF07 of a whole machine with OAM DMA transfers in flight, long lives (2^17+ overflows) and the mooneye timer ROMs.",
          "Cycle-sampled edge detection (imposed by the pinned unit tests); three corner cases the statement leaves open are counted as unspecified; the TLA+ model check mentioned in the quantifier is a different technique and not performed.",
          "DESIGN.md §4 C12"),
  "C13": ("reference-model monitor: LY and STAT mode compared after every machine cycle and LCDC write with a pure function of cycles-since-switch-on, under systematic and random LCD on/off schedules",
          "The LCD is switched off at every cycle offset of nine selected lines (first and later frames) and on again after random gaps, and random schedules with redundant LCDC writes are run for several frames; every (line, cycle) cell of the frame is visited and compared.",
-         "Only the PPU is stepped; reference: first line 112 cycles, modes 2/3/0 at cycles 0/20/61, lines 144-153 mode 1.",
+         "Component rig: only the PPU is stepped; a further part runs the whole emulator through gameboy.New and its own frame loop (running, halted and STOP-mode guests) and compares LY/mode after every frame. Reference: first line 112 cycles, modes 2/3/0 at cycles 0/20/61, lines 144-153 mode 1.",
          "DESIGN.md §4 C13"),
  "C14": ("event monitor on IF bits 0-1 (read and cleared after every machine cycle) against the rising edges derived from the reference line/mode counter; each single STAT source x every LYC, plus on/off schedules",
          "For each single STAT source (and none) x LYC 0-153 and out of range, three frames are run from switch-on and every machine cycle's VBlank/STAT requests are compared with the reference's rising edges (exactly once each, never while off); random on/off schedules add switch points at arbitrary cycles.",
@@ -70,7 +70,7 @@ CHECKS = {
          "DESIGN.md §4 C16"),
  "C17": ("per-cycle OAM change attribution under the lock-step follower: generated pointer-walking programs with the LCD switched off at every cycle offset of four lines, LCD-on programs, oam_bug ROMs",
          "Every machine cycle in which the 160 OAM bytes change is attributed to a predicted CPU write, a running DMA transfer, or LCD-on mode 2; the LCD is switched off at each of 456 (line, offset) points while programs drive BC/DE/HL/SP through FE00-FEFF.",
-         "OAM observed through a snapshot hook; any change in LCD-on mode 2 is accepted (corruption patterns are not part of the statement).",
+         "OAM observed through a snapshot hook; in LCD-on mode 2 a change is accepted as the OAM bug (whose corruption patterns are not part of the statement) only if the CPU unit in flight has a register pair, SP, PC or a predicted access at FE00-FEFF; while a transfer runs every change must be the byte fetched in the previous cycle or a predicted CPU write.",
          "DESIGN.md §4 C17"),
  "C18": ("reference register-file monitor: the whole FF10-FF3F block read back after every operation of random write / power / wave RAM / elapse histories",
          "1600 (quick) histories of 300 operations: after each operation all sound registers, the unused addresses between them and wave RAM are read through the Mapper and compared with the mask table, the power rules and the retained wave RAM contents.",
@@ -133,7 +133,7 @@ def main():
             "evidence_file": f"/verif/evidence/{pid}.json",
             "replay_cmd_template": "./run.sh replay {path}",
             "engine": "vcheck",
-            "level_claimed": {"category": "exploration", "text": text, "design_ref": ref},
+            "level_claimed": {"category": "exploration", "text": text + " Parts added during the seeded rounds (host actions such as RAM dumps, key events, debug options and neighbour instances; sibling machines; DMA in flight; STOP mode; long lives) are listed in DESIGN.md 10.5-10.6.", "design_ref": ref},
             "level_note": note,
             "technique": tech,
         })
